@@ -420,7 +420,8 @@ def start_value_uses(ck, P, R="FLOW/crc-start"):
         return
     f = fs[0]
     ck.use_fn(f)
-    roots = [i for i, l in enumerate(f.locals) if l.get("name") == "init_crc"]
+    nargs = f.j.get("arg_count") or 6
+    roots = [i for i, l in enumerate(f.locals) if l.get("name") == "init_crc" and 1 <= i <= nargs][:1]
     if not ck.anchor("parameter init_crc of fold_help", len(roots) == 1):
         return
     tainted, work = set(roots), list(roots)
